@@ -19,6 +19,12 @@ Decoder.vos Decoder.vok Decoder.required_vos: Decoder.v Base.vos Fields.vos SrcF
 Encoder.vo Encoder.glob Encoder.v.beautified Encoder.required_vo: Encoder.v Base.vo Fields.vo SrcFacts.vo Msg.vo
 Encoder.vio: Encoder.v Base.vio Fields.vio SrcFacts.vio Msg.vio
 Encoder.vos Encoder.vok Encoder.required_vos: Encoder.v Base.vos Fields.vos SrcFacts.vos Msg.vos
+Values.vo Values.glob Values.v.beautified Values.required_vo: Values.v Base.vo Fields.vo SrcFacts.vo Msg.vo
+Values.vio: Values.v Base.vio Fields.vio SrcFacts.vio Msg.vio
+Values.vos Values.vok Values.required_vos: Values.v Base.vos Fields.vos SrcFacts.vos Msg.vos
+ValuesProofs.vo ValuesProofs.glob ValuesProofs.v.beautified ValuesProofs.required_vo: ValuesProofs.v Base.vo Fields.vo SrcFacts.vo Msg.vo Values.vo
+ValuesProofs.vio: ValuesProofs.v Base.vio Fields.vio SrcFacts.vio Msg.vio Values.vio
+ValuesProofs.vos ValuesProofs.vok ValuesProofs.required_vos: ValuesProofs.v Base.vos Fields.vos SrcFacts.vos Msg.vos Values.vos
 DecoderSafety.vo DecoderSafety.glob DecoderSafety.v.beautified DecoderSafety.required_vo: DecoderSafety.v Base.vo Fields.vo SrcFacts.vo Msg.vo Decoder.vo
 DecoderSafety.vio: DecoderSafety.v Base.vio Fields.vio SrcFacts.vio Msg.vio Decoder.vio
 DecoderSafety.vos DecoderSafety.vok DecoderSafety.required_vos: DecoderSafety.v Base.vos Fields.vos SrcFacts.vos Msg.vos Decoder.vos
@@ -91,6 +97,9 @@ Properties_C03.vos Properties_C03.vok Properties_C03.required_vos: Properties_C0
 Properties_C07.vo Properties_C07.glob Properties_C07.v.beautified Properties_C07.required_vo: Properties_C07.v Base.vo Fields.vo SrcFacts.vo Msg.vo SrcDecisions.vo Sim.vo Prober.vo ProberProofs.vo
 Properties_C07.vio: Properties_C07.v Base.vio Fields.vio SrcFacts.vio Msg.vio SrcDecisions.vio Sim.vio Prober.vio ProberProofs.vio
 Properties_C07.vos Properties_C07.vok Properties_C07.required_vos: Properties_C07.v Base.vos Fields.vos SrcFacts.vos Msg.vos SrcDecisions.vos Sim.vos Prober.vos ProberProofs.vos
+Properties_C20.vo Properties_C20.glob Properties_C20.v.beautified Properties_C20.required_vo: Properties_C20.v Base.vo Fields.vo SrcFacts.vo Msg.vo Cache.vo CacheSpec.vo CacheProofs.vo Values.vo ValuesProofs.vo
+Properties_C20.vio: Properties_C20.v Base.vio Fields.vio SrcFacts.vio Msg.vio Cache.vio CacheSpec.vio CacheProofs.vio Values.vio ValuesProofs.vio
+Properties_C20.vos Properties_C20.vok Properties_C20.required_vos: Properties_C20.v Base.vos Fields.vos SrcFacts.vos Msg.vos Cache.vos CacheSpec.vos CacheProofs.vos Values.vos ValuesProofs.vos
 Properties_C19.vo Properties_C19.glob Properties_C19.v.beautified Properties_C19.required_vo: Properties_C19.v Base.vo Fields.vo SrcFacts.vo Msg.vo SrcDecisions.vo Cache.vo Sim.vo Browser.vo BrowserSpec.vo BrowserProofs.vo
 Properties_C19.vio: Properties_C19.v Base.vio Fields.vio SrcFacts.vio Msg.vio SrcDecisions.vio Cache.vio Sim.vio Browser.vio BrowserSpec.vio BrowserProofs.vio
 Properties_C19.vos Properties_C19.vok Properties_C19.required_vos: Properties_C19.v Base.vos Fields.vos SrcFacts.vos Msg.vos SrcDecisions.vos Cache.vos Sim.vos Browser.vos BrowserSpec.vos BrowserProofs.vos
